@@ -121,7 +121,7 @@ func newAllowList(k string, raw any, handleKey func(key string, value any) (bool
 			return nil, fmt.Errorf("config `%s` has invalid CIDR: %s. %w", k, rawCIDR, err)
 		}
 
-		ipNet = netip.PrefixFrom(ipNet.Addr().Unmap(), ipNet.Bits())
+		ipNet = unmapPrefix(ipNet)
 
 		tree.Insert(ipNet, value)
 
@@ -230,10 +230,19 @@ func getRemoteAllowRanges(c *config.C, k string) (*bart.Table[*AllowList], error
 			return nil, fmt.Errorf("config `%s` has invalid CIDR: %s. %w", k, rawCIDR, err)
 		}
 
-		remoteAllowRanges.Insert(netip.PrefixFrom(ipNet.Addr().Unmap(), ipNet.Bits()), allowList)
+		remoteAllowRanges.Insert(unmapPrefix(ipNet), allowList)
 	}
 
 	return remoteAllowRanges, nil
+}
+
+// unmapPrefix converts a prefix inside the IPv4-mapped IPv6 range (::ffff:0:0/96) to the equivalent IPv4 prefix.
+// Any other prefix is returned unchanged.
+func unmapPrefix(p netip.Prefix) netip.Prefix {
+	if p.Addr().Is4In6() && p.Bits() >= 96 {
+		return netip.PrefixFrom(p.Addr().Unmap(), p.Bits()-96)
+	}
+	return p
 }
 
 func (al *AllowList) Allow(addr netip.Addr) bool {
